@@ -6,6 +6,8 @@
  *        fresh connection (client preface supplied by the harness), segments appended to the
  *        read queue one by one, h2_parse_frames() after each
  *        -> goaway=<code|-> cid=<n> rused=<n> fsize=<n> disc=<n> s=<id:h2state:status:reqlen:bodyin,...> wq=<bytes queued>:<fnv32>
+ *           rq=<largest number of bytes left in the read queue after any h2_parse_frames() call that was
+ *               not stopped by GOAWAY or by a full write queue>
  *  h2c <fsize> <hex>
  *        h2_recv_continuation(9+flen(first frame), clen, cqlen, cq, con) on a read queue that
  *        holds <hex> in one chunk  -> ret=<n> flen=<merged u24> pad=<s[9] if PADDED> goaway=<code|->
@@ -156,12 +158,16 @@ int main(void) {
         if (0 == strcmp(op, "h2f") && ltv_ntok >= 3) {
             con_begin((uint32_t)atoi(ltv_tok[1]));
             h2con * const h2c = (h2con *)con.hx;
+            off_t rqmax = 0;
             for (int i = 2; i < ltv_ntok; ++i) {
                 size_t n; unsigned char *seg = ltv_unhex(ltv_tok[i], &n);
                 if (n) chunkqueue_append_mem(con.read_queue, (char *)seg, n);
                 free(seg);
                 if (h2c->sent_goaway > 0) continue;
                 h2_parse_frames(&con);
+                if (0 == h2c->sent_goaway && chunkqueue_length(con.write_queue) <= 65536
+                    && chunkqueue_length(con.read_queue) > rqmax)
+                    rqmax = chunkqueue_length(con.read_queue);
             }
             put_goaway(h2c);
             printf(" cid=%u rused=%u fsize=%u disc=%u s=", h2c->h2_cid, h2c->rused, h2c->s_max_frame_size,
@@ -173,7 +179,7 @@ int main(void) {
                        (long long)r->reqbody_length, (long long)r->reqbody_queue.bytes_in);
             }
             off_t tot; uint32_t h = fnv_cq(con.write_queue, &tot);
-            printf(" wq=%lld:%u\n", (long long)tot, h);
+            printf(" wq=%lld:%u rq=%lld\n", (long long)tot, h, (long long)rqmax);
             con_end();
         }
         else if (0 == strcmp(op, "h2c") && ltv_ntok == 3) {
